@@ -12,6 +12,7 @@ CONSTANTS
   MaxRect = 1
   BIds = "whole"
   Thrs = {3, 5}
+  FilterSkew = FALSE
   TopNs = {0, 1, 2, 3}
   RecalcWeight = 1
   Rand = FALSE
